@@ -770,6 +770,15 @@ class Generator:
     def cols_of(self, m, kinds=None):
         return [c for c, k in m.cols.items() if kinds is None or k in kinds]
 
+    @staticmethod
+    def no_suffix_twins(cols):
+        """Generator exclusion (known finding KF-C10-suffix-projection, the defect quoted in C04's own
+        text): selecting both suffixed copies X_x and X_y out of a merge returns duplicated columns.
+        Column lists drawn by the generator therefore never contain both copies."""
+        cols = list(cols)
+        have = set(cols)
+        return [c for c in cols if not (isinstance(c, str) and c.endswith("_y") and c[:-2] + "_x" in have)]
+
     # -- adding --------------------------------------------------------------
     def try_add(self, op, order, labels, root, index_kind=None):
         op = dict(op)
@@ -904,7 +913,7 @@ class Generator:
             c = self.rng.choice(cols)
             return self.try_add({"op": "getcol", "src": m.id, "column": c}, m.order, m.labels, m.root, m.index_kind)
         k = self.rng.randint(1, len(cols))
-        sel = self.rng.sample(list(m.cols), k)
+        sel = self.no_suffix_twins(self.rng.sample(list(m.cols), k))
         return self.try_add({"op": "project", "src": m.id, "columns": sel}, m.order, m.labels, m.root, m.index_kind)
 
     def g_filter(self):
@@ -1176,7 +1185,7 @@ class Generator:
             num = self.cols_of(m, NUMERIC)
             if fn == "nunique" or not num:
                 return None
-            op["columns"] = num
+            op["columns"] = self.no_suffix_twins(num)
         else:
             kind = list(m.cols.values())[0]
             if fn in ("sum", "mean", "var", "std") and kind not in NUMERIC:
@@ -1194,7 +1203,7 @@ class Generator:
         if not keys:
             return None
         by = self.rng.sample(keys, 1 if self.rng.random() < 0.7 else min(2, len(keys)))
-        vals = [c for c in self.cols_of(m, NUMERIC) if c not in by]
+        vals = self.no_suffix_twins([c for c in self.cols_of(m, NUMERIC) if c not in by])
         op = {"op": "groupby_agg", "src": m.id, "by": by}
         if any(m.cols[c] == "cat" for c in by):
             op["observed"] = self.rng.random() < 0.5
